@@ -44,6 +44,11 @@ def run(rep):
              'order + [the bases in order]', floor=3)
     rep.rule('R03.5', 'ro() returns the merge result; root last; __iro__ is '
              'the filtered __sro__', floor=5)
+    rep.rule('R03.6', 'no stale order: Specification.changed recomputes '
+             '__sro__/__iro__ from one fresh _calculate_sro() on every path and '
+             'then notifies every dependent unconditionally, so the __sro__ of '
+             'everything below a changed specification is the linearization of '
+             'the CURRENT hierarchy (shared with C02 R02.1/R02.2)', floor=8)
     rep.decline('that the merge output lists each ancestor exactly once, each '
                 'before its bases, and equals the C3 linearization for every '
                 'ordered DAG (algorithmic correctness on unbounded inputs; '
@@ -61,3 +66,7 @@ def run(rep):
     rosem.mro_memo(rep, mod, 'R03.3')
     rosem.base_tree(rep, mod, 'R03.4')
     r03_5(rep, mod)
+    from . import specsem
+    imod = rep.repo.module('interface.py')
+    specsem.changed_recompute(rep, imod, 'R03.6')
+    specsem.changed_notify(rep, imod, 'R03.6')
